@@ -101,6 +101,7 @@ def cases(tier):
             yield ('frames', li, sc['frame_maxlen'], (sh, 8))
     yield ('frame_series', 0, 0)
     yield ('unlabelled', 0, 0)
+    yield ('hier_ops', 0, 0)
 
 
 def universe(tier):
@@ -449,6 +450,54 @@ def run_unlabelled(case, ctx):
     ctx.sample({'family': 'unlabelled'}, limit=1)
 
 
+HTREES = [
+    (('a', 1), ('a', 2)), (('a', 2), ('a', 1)), (('a', 1), ('b', 1)), (('b', 1), ('a', 1)), (('a', 1),), (('b', 2),),
+    (('a', 1), ('a', 2), ('b', 1)), (('b', 1), ('a', 2), ('a', 1)), (('a', 1), ('a', 2), ('b', 1), ('b', 2)), (('b', 2), ('b', 1), ('a', 2), ('a', 1)),
+]
+
+
+def run_hier_ops(case, ctx):
+    '''operators between containers labelled hierarchically (Series index, Frame columns): pairing by full tuple'''
+    def val(t, side):
+        return (ord(t[0]) - 96) * 10 + t[1] + 100 * side
+    for ta, tb in itertools.product(HTREES, repeat=2):
+        sa = sf.Series([val(t, 0) for t in ta], index=sf.IndexHierarchy.from_labels(ta))
+        sb = sf.Series([val(t, 1) * 1.5 for t in tb], index=sf.IndexHierarchy.from_labels(tb))
+        fa = sf.Frame.from_records([[val(t, 0) for t in ta]], columns=sf.IndexHierarchy.from_labels(ta), index=('x',))
+        fb = sf.Frame.from_records([[val(t, 1) * 1.5 for t in tb]], columns=sf.IndexHierarchy.from_labels(tb), index=('x',))
+        da, db = {t: val(t, 0) for t in ta}, {t: val(t, 1) * 1.5 for t in tb}
+        ctx.state(('hier', ta, tb))
+        if ta != tb:
+            ctx.nontriv(('hier', ta, tb))
+        for name, f in (('add', op.add), ('mul', op.mul), ('sub', op.sub), ('lt', op.lt)):
+            for kind, x, y in (('series', sa, sb), ('frame-columns', fa, fb)):
+                ctx.transition()
+                info = dict(op=name, a=ta, b=tb, kind=kind)
+                try:
+                    r = f(x, y)
+                except Exception as e:
+                    ctx.violation(f'hier-{kind}.{name}|raises|{type(e).__name__}', **info, error=repr(e))
+                    continue
+                labs = [tuple(t) for t in (r.index if kind == 'series' else r.columns)]
+                vals = list(r.values) if kind == 'series' else list(r.values[0])
+                if set(labs) != set(ta) | set(tb) or len(labs) != len(set(labs)):
+                    ctx.violation(f'hier-{kind}.{name}|result-labels', **info, got=labs)
+                    continue
+                if ta == tb and labs != list(ta):
+                    ctx.violation(f'hier-{kind}.{name}|equal-indices-reordered', **info, got=labs)
+                    continue
+                for t, g in zip(labs, vals):
+                    if t in da and t in db:
+                        if not elem_eq(g, f(da[t], db[t])):
+                            ctx.violation(f'hier-{kind}.{name}|value', **info, label=t, got=norm(g), expected=norm(f(da[t], db[t])))
+                            break
+                    elif name != 'lt' and not is_missing(g):
+                        ctx.violation(f'hier-{kind}.{name}|value-where-one-operand-lacks-label', **info, label=t, got=norm(g))
+                        break
+    ctx.outcome('hier_ops')
+    ctx.sample({'family': 'hier_ops', 'trees': len(HTREES)}, limit=1)
+
+
 def run_case(case, ctx):
-    {'setops': run_setops, 'setops_ih': run_setops_ih, 'series': run_series, 'frames': run_frames,
+    {'hier_ops': run_hier_ops, 'setops': run_setops, 'setops_ih': run_setops_ih, 'series': run_series, 'frames': run_frames,
      'frame_series': run_frame_series, 'unlabelled': run_unlabelled}[case[0]](case, ctx)
